@@ -225,6 +225,14 @@ func (x *Exec) instrValue(fr *Frame, st *State, v ssa.Value, instr ssa.Instructi
 	case *ssa.Index:
 		av := x.value(fr, st, in.X)
 		i := x.term(x.value(fr, st, in.Index))
+		if isString(in.X.Type()) {
+			s := x.term(av)
+			x.oblige(st, fr, in, "idx", And("(<= 0 "+i+")", "(< "+i+" (s_len "+s+"))"), "string index out of range")
+			bt := types.Typ[types.Uint8]
+			v := Val{S: x.S.Define("ch", "Int", x.heapLoad(st, bt, "(s_reg "+s+")", "(+ (s_off "+s+") "+i+")")), T: in.Type()}
+			x.wfAssume(st, v)
+			return v
+		}
 		at, ok := in.X.Type().Underlying().(*types.Array)
 		if !ok {
 			unsup("index on %s", in.X.Type())
